@@ -50,7 +50,9 @@ impl JsonGen {
         match rng.below(3) {
             0 => json!({"type": "object", "properties": {"v": self.gen_scalar(rng), "next": {"$ref": format!("#/$defs/d{i}")}}, "required": ["v"], "additionalProperties": false}),
             1 => json!({"type": "object", "properties": {"v": self.gen_scalar(rng), "kids": {"type": "array", "items": {"$ref": format!("#/$defs/d{i}")}, "maxItems": 2}}, "required": ["v"], "additionalProperties": false}),
-            _ => self.gen(rng, 1),
+            // no reference at the top of a definition body: `d0: {$ref: d0}` (directly or through anyOf) is an
+            // unguarded cycle, which JSON Schema leaves undefined and which has no finite derivation
+            _ => JsonGen { n_defs: 0, ..self.clone() }.gen(rng, 1),
         }
     }
 
